@@ -187,6 +187,19 @@ def replay_case(arg):
                 fail('Differential', 'dpsi', dict(model=name, got=np.asarray(dpsi).tolist(), expected=exp_dpsi.tolist()))
             if np.asarray(dth).shape != exp_dtheta.shape or not interp.close(np.asarray(dth, dtype=float), exp_dtheta):
                 fail('Differential', 'dtheta', dict(model=name, got=np.asarray(dth).tolist(), expected=exp_dtheta.tolist()))
+            # ---- all covariate effects exactly zero: the model coincides with the underlying one, individual by individual
+            # (same shapes, too)
+            with warnings.catch_warnings():
+                warnings.simplefilter('ignore')
+                full0 = np.concatenate([th.flatten(), np.zeros(len(be))])
+                psi0 = np.asarray(cpm.compute_individual_parameters(full0.copy(), obs.copy(), cv.copy()), dtype=float)
+                exp0 = np.zeros((ni, nd))
+                for i in range(ni):
+                    exp0[i] = np.asarray(base.compute_individual_parameters(th.flatten(), obs[i][None, :]))[0]
+            cnt['evaluations'] = cnt.get('evaluations', 0) + 1
+            if psi0.shape != exp0.shape or not interp.close(psi0, exp0):
+                fail('Unselected', 'zero_effects_do_not_coincide_with_the_underlying_model',
+                     dict(model=name, got_shape=list(psi0.shape), expected_shape=list(exp0.shape)))
             # ---- the hierarchical form (reduce=True): for leaves with individual-level parameters the two blocks above joined;
             # for a pooled leaf psi_i = vartheta_0 + sum_c beta_c chi_ic IS a function of the population parameters, so the
             # upstream sensitivities reach vartheta_0 (summed over individuals) AND every beta (weighted by the covariate)
